@@ -154,6 +154,17 @@ P["C18"] = dict(
          "case.",
     ref="DESIGN.md 3 C18")
 
+P["C17"] = dict(
+    level="model_checking", engine="longform",
+    technique="TLA+ model of long-form DID creation (a function) and of the resolvable shape (LongForm.tla) checked by TLC; "
+              "every creation / resolution probe replayed into VDR.Create / VDR.Read / dochandler.ResolveDocument / "
+              "ProcessOperation, plus a sweep over every single-character change",
+    text="TLC checks determinism and injectivity of creation and enumerates the namespace / encoding / suffix / form "
+         "deviations of a DID with the verdict the statement gives; the harness executes every case against the real "
+         "VDR and document handler, compares documents, ids, metadata and the reference hash / canonical form of "
+         "the DID's parts, and sweeps every single-character change of every created DID.",
+    ref="DESIGN.md 3 C17")
+
 NOT_YET = {}
 
 
